@@ -23,14 +23,15 @@ SAME_METHODS = {"astype", "copy", "conj", "ravel", "squeeze", "flatten", "view"}
 REDUCE_METHODS = {"any", "all", "sum", "max", "min", "mean", "prod"}
 
 
-class A:          # array / mask in a space
-    __slots__ = ("s",)
+class A:          # array / mask in a space; kind: "mask" (boolean provenance), "val" (numbers), None (unknown)
+    __slots__ = ("s", "kind")
 
-    def __init__(self, s):
+    def __init__(self, s, kind=None):
         self.s = s
+        self.kind = kind
 
     def __repr__(self):
-        return f"A({self.s})"
+        return f"A({self.s}{',' + self.kind if self.kind else ''})"
 
 
 class I:          # integer index vector: positions in `dom`, selecting `cod`
@@ -84,10 +85,15 @@ class MaskTyper:
                 return None
         if len(sp) >= 2:
             self.resolved += 1
+        kind = {"comparison": "mask", "boolean operation": "mask"}.get(what)
+        if kind is None and what == "mask operation":
+            kind = "mask" if all(t.kind == "mask" for t in types if isinstance(t, A)) else "val"
+        if kind is None:
+            kind = "val"
         if out is not None:
-            return A(out)
+            return A(out, kind)
         if any(isinstance(t, A) for t in types):
-            return A(None)
+            return A(None, kind)
         if types and all(t == S for t in types):
             return S
         return None
@@ -109,9 +115,15 @@ class MaskTyper:
                 return S
             return None
         if isinstance(node, ast.UnaryOp):
-            return self.ty(node.operand)
+            t = self.ty(node.operand)
+            if isinstance(t, A) and isinstance(node.op, ast.Not):
+                return A(t.s, "mask")
+            if isinstance(t, A) and not isinstance(node.op, ast.Invert):
+                return A(t.s, "val")
+            return t
         if isinstance(node, ast.BinOp):
-            return self._join(node, [self.ty(node.left), self.ty(node.right)], "elementwise operation")
+            what = "mask operation" if isinstance(node.op, (ast.BitAnd, ast.BitOr, ast.BitXor)) else "elementwise operation"
+            return self._join(node, [self.ty(node.left), self.ty(node.right)], what)
         if isinstance(node, ast.Compare):
             return self._join(node, [self.ty(node.left)] + [self.ty(c) for c in node.comparators], "comparison")
         if isinstance(node, ast.BoolOp):
@@ -140,6 +152,8 @@ class MaskTyper:
                     return None
             return t.cod
         if isinstance(t, A):
+            if t.kind != "mask":
+                return None          # an integer-valued array used as an index: its positions are not known to refer to its own space
             # boolean mask
             if base_space is not None and t.s is not None:
                 self.resolved += 1
@@ -216,9 +230,11 @@ class MaskTyper:
         if d in CTORS and args:
             a0 = args[0]
             d0 = dotted(a0)
+            dt = [ast.unparse(x) for x in list(args[1:]) + [k.value for k in node.keywords if k.arg == "dtype"]]
+            kind = "mask" if any(x in ("bool", "np.bool_", "'bool'") for x in dt) else "val"
             if d0 in self.sizes:
-                return A(self.sizes[d0])
-            return A(None)
+                return A(self.sizes[d0], kind)
+            return A(None, kind)
         if d in ("np.zeros_like", "np.ones_like", "np.empty_like") and args:
             return self.ty(args[0])
         if d in ("float", "int", "complex"):
@@ -227,6 +243,8 @@ class MaskTyper:
             base = self.ty(node.func.value)
             at = node.func.attr
             if isinstance(base, A):
+                if at == "astype" and args:
+                    return A(base.s, "mask" if ast.unparse(args[0]) in ("bool", "np.bool_", "'bool'") else "val")
                 if at in SAME_METHODS:
                     return base
                 if at in REDUCE_METHODS:
@@ -340,7 +358,7 @@ def _join(a, b, in1, in2):
     if isinstance(a, I) and isinstance(b, I) and a.dom == b.dom:
         return I(a.dom, a.cod if a.cod == b.cod else f"{a.dom}/?")
     if isinstance(a, A) and isinstance(b, A):
-        return A(a.s if a.s == b.s else None)
+        return A(a.s if a.s == b.s else None, a.kind if a.kind == b.kind else None)
     if b is None and not in2:
         return a
     if a is None and not in1:
@@ -354,7 +372,7 @@ def _same(a, b):
     if type(a) is not type(b):
         return False
     if isinstance(a, A):
-        return a.s == b.s
+        return a.s == b.s and a.kind == b.kind
     if isinstance(a, I):
         return a.dom == b.dom and a.cod == b.cod
     return a == b
